@@ -86,7 +86,9 @@ def run_paths(keybase, fnname, thunk, witness, extra_backend=None, max_paths=32,
     out = []
     for label, rs in results.items():
         ok = all(r_[0] for r_ in rs)
-        ob = Ob(key=f"{keybase}/{label}", fn=fnname, clause=label, engine="IDX", status=DISCHARGED if ok else FAILED, backend="z3/cvc5",
+        concrete = all(r_[1] == "concrete" for r_ in rs)
+        ob = Ob(key=f"{keybase}/{label}", fn=fnname, clause=label, engine="IDX", status=DISCHARGED if ok else FAILED,
+                backend="sympy normal form of finite sums (vcgen/symalg.py) / evaluated in Python" if concrete else "z3/cvc5",
                 secs=(time.time() - t0) / max(1, len(results)))
         bad = [r_ for r_ in rs if not r_[0]]
         ob.detail = f"{len(rs)} path(s)" if ok else f"{len(bad)}/{len(rs)} path(s) not discharged: {bad[0][1]}"
